@@ -182,6 +182,7 @@ Section Crypto.
     decode cA P addrB =
       (cA, DWhoareyou (mkChal (w_nonce w) (w_idnonce w) (w_seq w) None (w_cdata w'))).
   Proof.
+    clear seal pub_of sign.
     intros Hiv Hn Hid Hseq Hp Hpe Hdest. subst dest. unfold V5wire.encode_whoareyou.
     destruct ((0 <? w_seq w) && _); [discriminate|].
     unfold make_header, sizeofWhoareyouAuthData. change (65535 <? 24) with false. cbn iota.
@@ -241,6 +242,7 @@ Section Crypto.
       (* receiver: decodes the message, state unchanged *)
       decode cB P addrA = (cB, DMsg (c_id cA) None pt).
   Proof.
+    clear pub_of sign.
     intros LA LB Hkey HidB Hproto Hpl Hidl Hiv Hr8 Hpt Hok.
     unfold V5wire.encode_message. rewrite LA.
     unfold make_header, sizeofMessageAuthData. change (65535 <? 32) with false. cbn iota.
@@ -482,3 +484,78 @@ Section Crypto.
     injection E as Ec Ed. revert Ed. apply rejects_cross_session. exact Hsep.
   Qed.
 End Crypto.
+
+(* ---------- a concrete run (non-vacuity of the round-trip premises) ----------
+   A toy instantiation of the abstract primitives (NOT cryptography: constant
+   keystream, checksum tag) and one complete exchange: WHOAREYOU, handshake,
+   reply over the new session, a tampered copy and a misdelivered copy. *)
+Module Toy.
+  Definition ks (_ _ : bytes) (_ : nat) : N := 7.
+  Definition sum (l : bytes) : N := fold_left N.add l 0.
+  Definition tag (k n p a : bytes) : bytes :=
+    repeat ((sum k + 3 * sum n + 5 * sum p + 7 * sum a + lenN p) mod 256) 16.
+  Definition seal (k n p a : bytes) : bytes := p ++ tag k n p a.
+  Definition open (k n c a : bytes) : option bytes :=
+    if lenN c <? 16 then None else
+    let m := (length c - 16)%nat in
+    if beq (skipn m c) (tag k n (firstn m c) a) then Some (firstn m c) else None.
+  Definition Hsha (x : bytes) : bytes := firstn 32 x.
+  Definition pub_of (k : bytes) : bytes := 2 :: k.
+  Definition sign (k h : bytes) : bytes := k ++ h.
+  Definition sig_verify (pub h sig : bytes) : bool := beq sig (tl pub ++ h).
+  Definition pub_valid (p : bytes) : bool := lenN p =? 33.
+  Fixpoint xor2 (a b : bytes) : bytes :=
+    match a, b with x :: a', y :: b' => N.lxor x y :: xor2 a' b' | _, _ => [] end.
+  Definition ecdh (a B : bytes) : bytes := xor2 a (tl B).
+  Definition kdf (s salt info : bytes) : bytes * bytes :=
+    (firstn 16 (s ++ info), firstn 16 (map (N.add 1) (s ++ info))).
+  Definition rec_seq (_ : bytes) : option N := None.
+  Definition rec_node (_ : bytes) : option node := None.
+  Definition msg_ok (_ : bytes) : bool := true.
+
+  Definition dec := decode ks open Hsha sig_verify pub_valid ecdh kdf rec_seq rec_node msg_ok.
+
+  Definition idA := repeat 17 32.  Definition idB := repeat 34 32.
+  Definition privA := repeat 5 32. Definition privB := repeat 9 32.
+  Definition nodeA := mkNode idA (pub_of privA) 3 [1; 2; 3].
+  Definition nodeB := mkNode idB (pub_of privB) 4 [4; 5; 6].
+  Definition proto : bytes := [100; 105; 115; 99; 118; 53].
+  Definition cA0 := mkCodec nodeA privA proto [] [].
+  Definition cB0 := mkCodec nodeB privB proto [] [].
+  Definition addrA : bytes := [65].  Definition addrB : bytes := [66].
+  Definition iv1 := repeat 1 16. Definition iv2 := repeat 2 16. Definition iv3 := repeat 3 16.
+  Definition ping : bytes := [1; 194; 1; 1].  Definition pong : bytes := [2; 195; 1; 1; 128].
+
+  Definition is_msg (d : dres) (src pt : bytes) : bool :=
+    match d with DMsg s _ p => beq s src && beq p pt | _ => false end.
+  Definition not_msg (d : dres) : bool := match d with DMsg _ _ _ => false | _ => true end.
+
+  Definition scenario_ok : bool :=
+    let w := mkChal (repeat 8 12) (repeat 6 16) 3 (Some nodeA) [] in
+    match encode_whoareyou ks cB0 idA addrA w iv1 with
+    | None => false
+    | Some (cB1, P2, _) =>
+        match dec cA0 P2 addrB with
+        | (_, DWhoareyou wA) =>
+            let wA' := mkChal (w_nonce wA) (w_idnonce wA) (w_seq wA) (Some nodeB) (w_cdata wA) in
+            match encode_handshake ks seal Hsha pub_of sign ecdh kdf cA0 idB addrB wA'
+                                   (repeat 11 32) (repeat 12 8) iv2 ping with
+            | None => false
+            | Some (cA1, P3) =>
+                let (cB2, d3) := dec cB1 P3 addrA in
+                match encode_message ks seal cB2 idA addrA (repeat 13 8) (repeat 14 12) iv3 pong
+                                     (repeat 15 20) with
+                | None => false
+                | Some (_, P4) =>
+                    let P4t := firstn 80 P4 ++ match skipn 80 P4 with x :: t => N.lxor x 1 :: t | [] => [] end in
+                    is_msg d3 idA ping &&
+                    is_msg (snd (dec cA1 P4 addrB)) idB pong &&
+                    not_msg (snd (dec cA1 P4t addrB)) &&
+                    not_msg (snd (dec cB2 P4 addrB)) &&
+                    not_msg (snd (dec cA0 P4 addrB))
+                end
+            end
+        | _ => false
+        end
+    end.
+End Toy.
